@@ -102,6 +102,14 @@ def violates(w, r):
             return True, 'panic/abort rc=%s %s' % (r['rc'], r['stderr'].strip().split('\n')[0][:160])
     if 'expect_stdout' in w and r['stdout'] != w['expect_stdout']:
         return True, 'stdout %r != expected %r' % (r['stdout'][:200], w['expect_stdout'][:200])
+    if 'expect_fdset' in w:
+        got = [x for x in (r['stderr'] if w.get('fd_where') == 'stderr' else r['stdout']).split() if x.isdigit()]
+        if got != w['expect_fdset']:
+            return True, 'program saw descriptors %s, expected %s' % (got, w['expect_fdset'])
+    if 'expect_stdout_last_line' in w:
+        last = (r['stdout'].strip().split('\n') or [''])[-1]
+        if last != w['expect_stdout_last_line']:
+            return True, 'last stdout line %r != expected %r' % (last, w['expect_stdout_last_line'])
     if 'expect_rc' in w and r['rc'] != w['expect_rc']:
         return True, 'exit status %r != expected %r' % (r['rc'], w['expect_rc'])
     if 'expect_no_file' in w and w['expect_no_file'] in r.get('listing', []):
